@@ -6,6 +6,7 @@
 #include "seams.h"
 #include "sim_plan.h"
 #include "sim_model.h"
+#include <algorithm>
 #include "evaltab.inc"
 
 static bool g_trace = false;
@@ -517,11 +518,26 @@ struct Exec {
       if (unexpected(co2, "C14", "display_vec")) return;
       vn = parse_display_names(co2.out, " is size: ", nullptr);
     }
-    for (const std::string& n : pn) {
-      S got = S(0);
-      CallOut co = call(false, [&] { got = MASA::masa_get_param<S>(n); });
-      if (unexpected(co, "C11", "get_param")) return;
-      inst.p0[n] = got;
+    {
+      // first read after the init: the parameter name that was touched last through whatever instance was there before
+      std::vector<std::string> order;
+      const std::string first = last_name[prec];
+      if (!first.empty() && std::find(pn.begin(), pn.end(), first) != pn.end()) order.push_back(first);
+      for (const std::string& n : pn) order.push_back(n);
+      S first_val = S(0);
+      for (size_t i = 0; i < order.size(); ++i) {
+        const std::string& n = order[i];
+        S got = S(0);
+        CallOut co = call(false, [&] { got = MASA::masa_get_param<S>(n); });
+        if (unexpected(co, "C11", "get_param")) return;
+        if (i == 0) first_val = got;
+        if (i > 0 && n == order[0] && bits_of(got) != bits_of(first_val)) {
+          orc_eval("C12");
+          viol("C12", "C12.init.isolation", sol.name + ":" + n,
+               "right after masa_init, two reads of " + n + " with no store in between return " + fmt_ld(first_val) + " and " + fmt_ld(got) + " (the first read followed a read of the same name on the previous instance)");
+        }
+        inst.p0[n] = got;
+      }
     }
     for (const std::string& n : vn) {
       std::vector<S> got;
